@@ -2,13 +2,20 @@
    Every step of `hexec` (Sem/AxHeap.v) is matched by the execution of the statement's code under `hrel`;
    progress (the machine does not get stuck on a linearly checked statement) is part of the proof.
    The counterpart of Proof/X86HSimProg.v; the conclusion is in the `rfin` form of Proof/RVSimAddr.v
-   (the run from the statement's code ends at `cleanup` with the machine's observation). *)
+   (the run from the statement's code ends at `cleanup` with the machine's observation).
+   Chain version (objects of any number of fields), all statement forms.  The conclusion has a second conjunct: the code
+   of the statement the machine executes contains an instruction of non-zero size.  That is what makes the landing point
+   of an Invoke exist (Proof/RVKClo.hclo_ok promises it under this condition only: a clause code made of labels only - an
+   empty Switch behind an empty load - has none, and the RISC-V routine has no epilogue instruction behind `cleanup`); it is
+   proved by the same induction: every statement form emits an instruction except Switch, a Switch with two or more clauses
+   emits the table dispatch, with one clause the claim is the induction hypothesis for the clause body, and with none the
+   machine cannot be there (the scrutinee's tag is a declared constructor by `hrel`). *)
 From Coq Require Import List ZArith NArith String Bool Lia FMapPositive Permutation.
 From SCC Require Import Base.Sexp Lang.AxSyn Sem.AxSem Sem.AxHeap Model.ParMoves Model.Backend Model.RV Sem.RVSem Sem.RVWf
      Model.Linearize Model.LinCheck Generated.Constants Proof.LinBasics Proof.LinTyping Proof.LinMachine
      Proof.RVSel Proof.SubstGraph Proof.SubstBackends Proof.RVSubst Proof.RVSimAddr Proof.BackendInv Proof.RVSimRel Proof.RVSimStmt
      Proof.RVSimClo Proof.RVHeapAbs Proof.RVHDefs Proof.RVHMem Proof.RVHBridge Proof.HRep Proof.RVKSimRel Proof.RVKSimStmt Proof.RVKSimSubst
-     Proof.RVKSimStore Proof.RVKSimLoad Proof.RVHLayout Proof.RVKFrag Proof.RVKClo Proof.X86HAnn
+     Proof.RVKSimStore Proof.RVKSimLoad Proof.RVHLayout Proof.RVKLayout Proof.RVKFrag Proof.RVKClo Proof.X86HAnn
      Proof.RVKSimProgA Proof.RVKSimHeapB Proof.RVKSimHeapC.
 From SCC Require Model.Heap Proof.HeapMore Proof.HeapTrace Proof.HeapRep Proof.AxHeapTyping Proof.AxHeapSafe.
 Import ListNotations.
@@ -66,13 +73,16 @@ Lemma ANNd d : In d (pdefs p) -> ann_check (dctx d) (dbody d) = true.
 Proof. unfold ann_check_prog in ANN. rewrite forallb_forall in ANN. exact (ANN d). Qed.
 
 Ltac hstep_with HS G := cbn [hexec hc_env hc_heap hc_stmt] in G |- *; rewrite HS in G |- *.
+Ltac nz_tail H := first [exact H | apply has_nz_app_r; nz_tail H].
+Lemma nz1 (c : rcode) r : isize c <> 0 -> has_nz (c :: r).
+Proof. intros H. exists O, c. auto. Qed.
 
 Lemma hsim_exec : forall fuel s c he hs tr st pc code lc lc',
   stmt_k s = true -> lin_check (sigs_of p) c s = true -> ann_check c s = true ->
   rcs (ptypes p) s c lc = Ok (code, lc') -> placed im pc code ->
   hrel c he hs st -> map h_id he = vars c -> hinv he hs s ->
   XP.not_oof (fst (fst (hexec fuel p (mkhc he hs s) [] tr))) ->
-  rfin im stop pc st (fst (fst (hexec fuel p (mkhc he hs s) [] tr))).
+  rfin im stop pc st (fst (fst (hexec fuel p (mkhc he hs s) [] tr))) /\ has_nz code.
 Proof.
   induction fuel as [|fuel IH]; intros s c he hs tr st pc code lc lc' FR LC AN CS PL R NM HI G.
   { exfalso. apply G. reflexivity. }
@@ -96,10 +106,11 @@ Proof.
     { intros q Hq. rewrite forallb_forall in LCs. exact (LCs q Hq). }
     { eapply hrel_ctx_of; eauto. }
     { lia. }
-    eapply star_rfin; eauto.
-    eapply (IH next (map fst re) he' _ _ s'); eauto.
-    + eapply hsubst_names; eauto.
-    + eapply hinv_step; eauto.
+    eassert (IHn : rfin im stop _ s' _ /\ has_nz c3).
+    { eapply (IH next (map fst re) he' _ _ s'); eauto.
+      + eapply hsubst_names; eauto.
+      + eapply hinv_step; eauto. }
+    destruct IHn as [Fin NZn]. split; [eapply star_rfin; eauto|nz_tail NZn].
   - (* Call *)
     cbn [lin_check] in LC. apply andb_true_iff in LC as [_ LC].
     destruct (lookup_label (sigs_of p) label) as [ps|] eqn:LL; [|discriminate].
@@ -111,13 +122,15 @@ Proof.
     unfold find_def in FD. apply find_some in FD as [IN EQ]. apply ident_eqb_eq in EQ. subst label.
     destruct (DEFS d IN) as (pcd & lcd & cdd & lcd' & FL & CLb & CSd & PLd).
     pose proof (sim_call im st _ _ _ _ _ _ _ pc pcd CS (proj1 PL) FL CLb) as X.
-    eapply star_rfin; eauto.
-    eapply (IH (dbody d) (dctx d) (attach e' (ptrs he)) hs _ st); eauto.
-    + exact (LIN d IN).
-    + exact (ANNd d IN).
-    + eapply hbind_rel; eauto. exact (XS.lin_nodup _ _ _ (LIN d IN)).
-    + rewrite attach_names. exact (XS.bind_ids _ _ _ BD).
-    + exact (hinv_step p LP _ _ _ _ _ _ _ HI HS).
+    eassert (IHn : rfin im stop _ st _ /\ has_nz cdd).
+    { eapply (IH (dbody d) (dctx d) (attach e' (ptrs he)) hs _ st); eauto.
+      + exact (LIN d IN).
+      + exact (ANNd d IN).
+      + eapply hbind_rel; eauto. exact (XS.lin_nodup _ _ _ (LIN d IN)).
+      + rewrite attach_names. exact (XS.bind_ids _ _ _ BD).
+      + exact (hinv_step p LP _ _ _ _ _ _ _ HI HS). }
+    destruct IHn as [Fin _]. split; [eapply star_rfin; eauto|].
+    destruct (cs_call _ _ _ _ _ _ _ _ CS) as (-> & _). apply nz1. cbn; lia.
   - (* Let *)
     cbn [stmt_k] in FR. pose proof FR as FRn.
     pose proof LC as LC0. cbn [lin_check] in LC. apply andb_true_iff in LC as [_ LC].
@@ -148,12 +161,13 @@ Proof.
       as (c12 & c3 & lc1 & s' & -> & NX & LCn' & X & R').
     rewrite firstn_app_exact in NX, LCn', R' by exact SPLn.
     apply placed_app in PL as [_ PL3].
-    eapply star_rfin; eauto.
-    eapply (IH next (c0 ++ [mkb v Prd t]) _ _ _ s'); eauto.
-    rewrite map_h_id_app in *. unfold vars in *. rewrite !map_app in *. cbn [map h_id fst bvar].
-    apply app_inv_len in NM as [NM _]; [|rewrite !map_length; exact L0]. now rewrite NM.
+    eassert (IHn : rfin im stop _ s' _ /\ has_nz c3).
+    { eapply (IH next (c0 ++ [mkb v Prd t]) _ _ _ s'); eauto.
+      rewrite map_h_id_app in *. unfold vars in *. rewrite !map_app in *. cbn [map h_id fst bvar].
+      apply app_inv_len in NM as [NM _]; [|rewrite !map_length; exact L0]. now rewrite NM. }
+    destruct IHn as [Fin NZn]. split; [eapply star_rfin; eauto|nz_tail NZn].
   - (* Switch *)
-    rewrite stmt_k_switch in FR. apply andb_true_iff in FR as [_ FRc].
+    rewrite stmt_k_switch in FR. pose proof FR as FRc.
     pose proof LC as LC0. rewrite lin_check_switch in LC. apply andb_true_iff in LC as [_ LC].
     destruct (split_lastn 1 c) as [[c0 [|b [|b' r]]]|] eqn:SLc; try discriminate.
     apply split_lastn_Some in SLc as [-> _].
@@ -189,16 +203,17 @@ Proof.
     destruct RF' as (lk & RFlk).
     destruct (hsim_switch im p stop IMG FWD EVEN SMALL STOPC ENDC _ _ hs st v (Decl tn) cls lc code lc' pc he0 x tn tag fs q cl e1 lk hl fl cl0 R LC0 FRc CS PL
                 (XC.split_last1_app _ _) FC BD IA K03 ltac:(lia) RFlk)
-      as (pcb & lcb & cb & lcb' & s' & X' & CSb & PLb & LCb & R').
+      as (pcb & lcb & cb & lcb' & s' & X' & CSb & PLb & LCb & NZC & R').
     rewrite removelast_last in CSb, LCb, R'.
-    apply X'.
     rewrite ann_check_switch in AN. change 1%nat with (List.length [b]) in AN. rewrite split_lastn_app in AN.
     pose proof (find_clause_in _ _ _ FC) as INc.
-    eapply (IH (cl_body cl) (c0 ++ cl_ctx cl) _ _ _ s'); eauto.
-    + exact (clauses_k_in _ _ FRc INc).
-    + unfold ann_clauses_sw in AN. rewrite forallb_forall in AN. apply AN. exact INc.
-    + rewrite map_h_id_app in *. unfold vars in *. rewrite !map_app in *. cbn [map] in NM.
-      apply app_inj_tail in NM as [NM _]. rewrite NM. f_equal. rewrite attach_names. exact (XS.bind_ids _ _ _ BD).
+    eassert (IHn : rfin im stop _ s' _ /\ has_nz cb).
+    { eapply (IH (cl_body cl) (c0 ++ cl_ctx cl) _ _ _ s'); eauto.
+      + exact (clauses_k_in _ _ FRc INc).
+      + unfold ann_clauses_sw in AN. rewrite forallb_forall in AN. apply AN. exact INc.
+      + rewrite map_h_id_app in *. unfold vars in *. rewrite !map_app in *. cbn [map] in NM.
+        apply app_inj_tail in NM as [NM _]. rewrite NM. f_equal. rewrite attach_names. exact (XS.bind_ids _ _ _ BD). }
+    destruct IHn as [Fin NZn]. split; [apply X'; exact Fin|exact (NZC NZn)].
   - (* Create *)
     destruct env as [env|]; [|cbn [stmt_k] in FR; discriminate].
     rewrite stmt_k_create in FR. apply andb_true_iff in FR as [FRc FRn].
@@ -237,10 +252,12 @@ Proof.
       as (c12 & c3 & lc2 & lc3 & rest' & s' & -> & NX & LCn' & X & R').
     rewrite firstn_app_exact in NX, LCn', R' by reflexivity.
     apply placed_app in PL as [_ PL3]. apply placed_app in PL3 as [PL3 _].
-    eapply star_rfin; eauto.
-    eapply (IH next (c0 ++ [mkb v Cns (Decl tn)]) _ _ _ s'); eauto.
-    rewrite map_h_id_app in *. unfold vars in *. rewrite !map_app in *. cbn [map h_id fst bvar].
-    apply app_inv_len in NM as [NM _]; [|rewrite !map_length; exact L0]. now rewrite NM.
+    eassert (IHn : rfin im stop _ s' _ /\ has_nz c3).
+    { eapply (IH next (c0 ++ [mkb v Cns (Decl tn)]) _ _ _ s'); eauto.
+      rewrite map_h_id_app in *. unfold vars in *. rewrite !map_app in *. cbn [map h_id fst bvar].
+      apply app_inv_len in NM as [NM _]; [|rewrite !map_length; exact L0]. now rewrite NM. }
+    destruct IHn as [Fin NZn]. split; [eapply star_rfin; eauto|].
+    apply has_nz_app_r, has_nz_app_l. exact NZn.
   - (* Invoke *)
     pose proof LC as LC0. cbn [lin_check] in LC. apply andb_true_iff in LC as [_ LC].
     destruct (split_lastn 1 c) as [[c0 [|b [|b' r]]]|] eqn:SLc; try discriminate.
@@ -280,10 +297,13 @@ Proof.
     destruct (hsim_invoke im p stop STOPC ENDC ENC _ _ hs st v tag (Decl tn) args code lc lc' pc he0 x tn cls ce q cl e1 lk hl fl cl0
                 R (XC.split_last1_app _ _) FC BD LC0 CS (proj1 PL) IA K03 ltac:(lia) RFlk)
       as (pcb & lcb & cb & lcb' & s' & X' & CSb & PLb & LCb & ANb & FRb & R').
-    apply X'.
-    eapply (IH (cl_body cl) (cl_ctx cl ++ HRep.ctx_of_env ce) _ _ _ s'); eauto.
-    rewrite map_h_id_app, !attach_names. unfold vars at 1. rewrite map_app. fold (vars (cl_ctx cl)) (vars (HRep.ctx_of_env ce)).
-    rewrite vars_ctx_of_env. f_equal. exact (XS.bind_ids _ _ _ BD).
+    eassert (IHn : rfin im stop _ s' _ /\ has_nz cb).
+    { eapply (IH (cl_body cl) (cl_ctx cl ++ HRep.ctx_of_env ce) _ _ _ s'); eauto.
+      rewrite map_h_id_app, !attach_names. unfold vars at 1. rewrite map_app. fold (vars (cl_ctx cl)) (vars (HRep.ctx_of_env ce)).
+      rewrite vars_ctx_of_env. f_equal. exact (XS.bind_ids _ _ _ BD). }
+    destruct IHn as [Fin NZn]. split; [apply (X' NZn); exact Fin|].
+    destruct (cs_invoke _ _ _ _ _ _ _ _ _ _ CS) as (tmpv' & d' & _ & _ & _ & CD).
+    destruct (Nat.leb (List.length (txtors d')) 1); [subst code|destruct CD as (k' & _ & ->)]; apply nz1; cbn; lia.
   - (* Literal *)
     cbn [stmt_k] in FR.
     cbn [lin_check] in LC. apply andb_true_iff in LC as [_ LC]. cbn [ann_check] in AN.
@@ -292,10 +312,11 @@ Proof.
     destruct (cs_literal _ _ _ _ _ _ _ _ _ CS) as (tv & c2 & TV & NX & ->). cbn [b_mark b_load_immediate rv_backend app] in PL.
     apply placed_app in PL as [PL1 PL2].
     destruct (hsim_literal im (ptypes p) CLO c he hs st n v tv pc R (XS.lin_nodup _ _ _ LC) TV (proj1 PL1)) as (s' & X & R').
-    eapply star_rfin; eauto.
-    eapply (IH next (c ++ [mkb v Ext I64]) _ hs _ s'); eauto.
-    + rewrite map_h_id_app. unfold vars. rewrite map_app. cbn. unfold vars in NM. now rewrite NM.
-    + exact (hinv_step p LP _ _ _ _ _ _ _ HI HS).
+    eassert (IHn : rfin im stop _ s' _ /\ has_nz c2).
+    { eapply (IH next (c ++ [mkb v Ext I64]) _ hs _ s'); eauto.
+      + rewrite map_h_id_app. unfold vars. rewrite map_app. cbn. unfold vars in NM. now rewrite NM.
+      + exact (hinv_step p LP _ _ _ _ _ _ _ HI HS). }
+    destruct IHn as [Fin NZn]. split; [eapply star_rfin; eauto|nz_tail NZn].
   - (* Op *)
     cbn [stmt_k] in FR.
     cbn [lin_check] in LC. apply andb_true_iff in LC as [_ LC]. apply andb_true_iff in LC as [LCo LC].
@@ -309,15 +330,17 @@ Proof.
       hstep_with HS G. cbn [hrun fold_left rev_append push_print] in G |- *.
       destruct (hsim_op im (ptypes p) CLO c he hs st a op b v x y z tv ta tb pc R (XS.lin_nodup _ _ _ LC) LA1 LB1 EV TV TA TB (proj1 PL1)) as (s' & X & R').
       replace (List.length (r_arith op tv ta tb)) with 1%nat in PL2 by (destruct op; reflexivity).
-      eapply star_rfin; eauto.
-      eapply (IH next (c ++ [mkb v Ext I64]) _ hs _ s'); eauto.
-      * rewrite map_h_id_app. unfold vars. rewrite map_app. cbn. unfold vars in NM. now rewrite NM.
-      * exact (hinv_step p LP _ _ _ _ _ _ _ HI HS).
+      eassert (IHn : rfin im stop _ s' _ /\ has_nz c2).
+      { eapply (IH next (c ++ [mkb v Ext I64]) _ hs _ s'); eauto.
+        * rewrite map_h_id_app. unfold vars. rewrite map_app. cbn. unfold vars in NM. now rewrite NM.
+        * exact (hinv_step p LP _ _ _ _ _ _ _ HI HS). }
+      destruct IHn as [Fin NZn]. split; [eapply star_rfin; eauto|nz_tail NZn].
     + assert (HS : hstep p he hs (Op a op b v next) = HEnd (OUndef w)) by (cbn [hstep]; now rewrite LA1, LB1, EV).
       hstep_with HS G. cbn [fst].
       destruct (hsim_op_undef im (ptypes p) CLO c he hs st a op b v x y w tv ta tb R (XS.lin_nodup _ _ _ LC) LA1 LB1 EV TV TA TB) as (ci & E & ST).
       rewrite E in PL1. destruct (proj1 PL1 O ci eq_refl) as (HC & (ad & HA')). cbn [padd] in HC, HA'.
-      exact (rfin_undef im stop STOPC pc ci ad st w st HC HA' (ST ad)).
+      split; [exact (rfin_undef im stop STOPC pc ci ad st w st HC HA' (ST ad))|].
+      destruct op; apply nz1; cbn; lia.
   - (* PrintI64 *)
     cbn [stmt_k] in FR. discriminate.
   - (* IfC *)
@@ -336,6 +359,10 @@ Proof.
     pose proof (hinv_step p LP _ _ _ _ _ _ _ HI HS) as HI'. cbn [hrun fold_left] in HI'.
     apply placed_app in PL as [_ PL]. apply placed_app in PL as [PL2 PL]. apply placed_app in PL as [_ PL3].
     rewrite <- !padd_add in PL3. cbn [List.length] in PL2, PL3. rewrite Nat.add_assoc in PL3.
+    split.
+    2:{ destruct (cs_ifc _ _ _ _ _ _ _ _ _ _ _ CS) as (ta' & c1' & c2' & lc2' & c3' & _ & C1' & _ & _ & EC).
+        rewrite EC. cbn [b_mark rv_backend app].
+        destruct b as [b|]; [destruct C1' as (tb' & _ & ->)|subst c1']; destruct so; apply nz1; cbn; lia. }
     eapply star_rfin; eauto.
     destruct (eval_cmp so x y).
     + eapply (IH thenc c he hs _ st); eauto.
@@ -346,6 +373,7 @@ Proof.
     assert (HS : hstep p he hs (Exit v) = HEnd (OExit z)) by (cbn [hstep]; now rewrite LV).
     hstep_with HS G. cbn [fst].
     destruct (hsim_exit im (ptypes p) CLO c he hs st v z lc code lc' pc stop R LV CS (proj1 PL) STOPL) as (s' & X & FC & _).
-    eapply star_rfin; eauto. cbn [finish rev_append]. rewrite <- FC. apply rfin_stop; assumption.
+    split; [eapply star_rfin; eauto; cbn [finish rev_append]; rewrite <- FC; apply rfin_stop; assumption|].
+    destruct (cs_exit _ _ _ _ _ _ _ CS) as (tv & _ & -> & _). apply nz1. cbn; lia.
 Qed.
 End MainH.
